@@ -156,14 +156,12 @@ theorem toNear_fuel_mono (cfg : SqlCfg) (p : Ops) (hf : InFrag p = true) {f f' :
 
 /-! ### the root call (`using = None`) -/
 
-theorem toNear_none_eq (cfg : SqlCfg) (fuel : Nat) (p : Ops) (hp : ∀ s cs r l, p ≠ .order s cs r l)
-    (hf : InFrag p = true) :
+theorem toNear_none_eq (cfg : SqlCfg) (fuel : Nat) (p : Ops) (hf : InFrag p = true) :
     toNear cfg fuel p none = toNear cfg fuel p (some p.cols) := by
   cases fuel with
   | zero => rfl
   | succ fuel =>
     cases p with
-    | order s cs r l => exact absurd rfl (hp s cs r l)
     | join => cases hf
     | concat => cases hf
     | convert => cases hf
@@ -193,16 +191,6 @@ theorem map_select_self_of_wf {t : Table} (hw : t.WF) (hnd : t.cols.Nodup) :
   have hk := hw r hr
   rw [← hk] at hnd ⊢
   exact Row.select_keys_self r hnd
-
-/-- the query selects from a bare table with `SELECT *` only if that table has no column beyond the declared ones
-(Boolean guard; see `C08_star_leak_necessary`) -/
-def starLeakFree (cfg : SqlCfg) (env : Env) (p : Ops) : Bool :=
-  match toNearSql cfg p with
-  | .ok (.unary _ none _ (.table name _) _ _ _ _ _) =>
-    (match env.lookup name with
-     | some t => subset t.cols p.cols
-     | none => true)
-  | _ => true
 
 /-- what the root call returns for a sound translation of all declared columns -/
 theorem root_of_sound {Θ : Interp} {ec : EngineCfg} {env : Env} {q : Near} {u pc : List String} {tp : Table}
@@ -261,97 +249,24 @@ theorem root_of_sound {Θ : Interp} {ec : EngineCfg} {env : Env} {q : Near} {u p
     exact ⟨hks1 c, fun hc => hks2 c (hu c hc)⟩
   · exact map_select_mono h4 (fun c hc => hks2 c (hu c hc))
 
-/-- the root query is not a `SELECT *` from a bare table that has columns beyond the declared ones -/
-def NoStarLeak (env : Env) (q : Near) (pcols : List String) : Prop :=
-  ∀ nm agg name ts sc sfx mg dp key t, q = .unary nm none agg (.table name ts) sc sfx mg dp key →
-    env.lookup name = some t → ∀ c ∈ t.cols, c ∈ pcols
-
 /-- **Stage A at the root.**  The query `to_sql` renders for a well-formed pipeline of the fragment (no extend
-merges), evaluated as a forced SELECT, returns a table that has all declared columns – and only those unless it
-is a `SELECT *` over a bare table with extra columns – whose rows, restricted to the declared columns, are **in
-order** the rows of the pipeline's table under the engine's row ordering (`semE ec`). -/
+merges), evaluated as a forced SELECT, returns a table with exactly the declared column set whose rows, restricted
+to the declared columns, are **in order** the rows of the pipeline's table under the engine's row ordering
+(`semE ec`).  (Since fix 1805022 a final `order_rows` names its columns: no `SELECT *` at the root.) -/
 theorem stageA_root (Θ : Interp) (ec : EngineCfg) (env : Env) (scfg : SemCfg) (cfg : SqlCfg)
     (hm : cfg.merges = false) (p : Ops) (hf : InFrag p = true) (hwf : WF p) (hsq : SqlWF p) (hmp : MapsOK p)
     (he : EnvOK false env p) {fuel st st' : Nat} {q : Near} {tp : Table}
     (h : toNear cfg fuel p none st = .ok (q, st')) (htp : semE ec Θ scfg env p = .ok tp) :
-    ∃ T, semNear Θ ec env [] q none true = .ok T ∧ (∀ c ∈ p.cols, c ∈ T.cols) ∧
-      (NoStarLeak env q p.cols → ∀ c ∈ T.cols, c ∈ p.cols) ∧
+    ∃ T, semNear Θ ec env [] q none true = .ok T ∧ (∀ c, c ∈ T.cols ↔ c ∈ p.cols) ∧
       T.rows.map (fun r => r.select p.cols) = tp.rows := by
   obtain ⟨htpc, htpw⟩ := semG_cols_wf_frag _ Θ scfg env p hf tp htp
   have hself : tp.rows.map (fun r => r.select p.cols) = tp.rows := by
     rw [← htpc]; exact map_select_self_of_wf htpw (by rw [htpc]; exact hwf.cols_nodup)
-  by_cases hord : ∃ s cs r l, p = .order s cs r l
-  · obtain ⟨src, cs, rev, lim, rfl⟩ := hord
-    cases fuel with
-    | zero => exact absurd h toNear_zero_ne_ok
-    | succ fuel =>
-    simp only [SqlWF, sqlWFb, Bool.and_eq_true, subset_iff] at hsq
-    simp only [semG] at htp
-    obtain ⟨ts, hts, rfl⟩ := bind_pure_ok htp
-    rw [toNear] at h
-    simp only [Option.getD_none, Option.isNone_none, ↓reduceIte] at h
-    obtain ⟨sub, st1, h1, h2⟩ := bindM_ok.mp h
-    obtain ⟨i, st2, _, h4⟩ := bindM_ok.mp h2
-    rw [pureM_ok] at h4
-    cases h4
-    have hcols : (Ops.order src cs rev lim).cols = src.cols := rfl
-    have hS : (Ops.order src cs rev lim).cols.filter
-        (fun c => (((Ops.order src cs rev lim).usedFromSources (Ops.order src cs rev lim).cols).headD []).contains c)
-        = src.cols := by
-      rw [hcols]
-      apply List.filter_eq_self.mpr
-      intro c hc
-      simp only [usedFromSources, List.headD_cons, contains_iff, mem_unionL, List.mem_filter, hcols]
-      exact Or.inl ⟨hc, hc⟩
-    rw [hS] at h1 ⊢
-    obtain ⟨hsimple, u₁, hu₁, hu₁', hsound⟩ :=
-      transOK_frag Θ ec env scfg cfg hm src hf hwf hsq.1 hmp he fuel src.cols st sub st1 ts (fun c hc => hc) h1 hts
-    obtain ⟨T0, g1, g2, g4⟩ := hsound.req src.cols hu₁ false
-    refine ⟨_, semNear_unary_ok g1 none true, ?_, ?_, ?_⟩
-    · exact g2
-    · intro hleak c hc
-      have hc' : c ∈ T0.cols := hc
-      have hne : src.cols ≠ [] := hwf.cols_ne_nil
-      obtain ⟨ks, hk, _, _⟩ := hsound.keys (ne_nil_of_subset hu₁ hne)
-      cases sub with
-      | table name ts' =>
-        rw [semNear] at g1
-        cases hl : env.lookup name with
-        | none => rw [hl] at g1; cases g1
-        | some t =>
-          rw [hl] at g1
-          simp only [Bool.false_eq_true, ↓reduceIte, Except.ok.injEq] at g1
-          subst g1
-          exact hleak _ _ _ _ _ _ _ _ _ t rfl hl c hc'
-      | unary nm' terms' agg' sub' sc' sfx' mg' dp' key' =>
-        cases terms' with
-        | none => simp [Near.termKeys] at hk
-        | some ts' =>
-          rw [semNear_unary] at g1
-          cases hsub : semNear Θ ec env [] sub' sc' false with
-          | error er => rw [hsub] at g1; cases g1
-          | ok t0 =>
-            rw [hsub] at g1
-            simp only [Except.bind, Except.ok.injEq] at g1
-            subst g1
-            have : outCols (some ts') (some src.cols) t0.cols = src.cols :=
-              outCols_some_mem hne (by intro hh; cases hh)
-            rw [show (Ops.order src cs rev lim).cols = src.cols from rfl, ← this]
-            exact hc'
-      | cte _ => cases hsimple
-      | join => cases hsimple
-      | union => cases hsimple
-    · rw [← hself]
-      show (stepRows Θ ec none false _ (outCols none none T0.cols) T0.rows).map (fun r => r.select src.cols) = _
-      rw [stepRows_select _ _ _ _ _ (show ∀ c ∈ src.cols, c ∈ outCols none none T0.cols from g2), stepRows_pass]
-      · exact order_rows_agree g4 hsq.2 (fun c hc => hc)
-      · intro c _; exact Or.inl rfl
-  · have hno : ∀ s cs r l, p ≠ .order s cs r l := fun s cs r l e => hord ⟨s, cs, r, l, e⟩
-    rw [toNear_none_eq cfg fuel p hno hf] at h
-    obtain ⟨hsimple, u₁, hu₁, hu₁', hsound⟩ :=
-      transOK_frag Θ ec env scfg cfg hm p hf hwf hsq hmp he fuel p.cols st q st' tp (fun c hc => hc) h htp
-    obtain ⟨T, t1, t2, t3⟩ := root_of_sound hsound hsimple hu₁ hu₁' hwf.cols_ne_nil
-    exact ⟨T, t1, fun c hc => (t2 c).mpr hc, fun _ c hc => (t2 c).mp hc, t3.trans hself⟩
+  rw [toNear_none_eq cfg fuel p hf] at h
+  obtain ⟨hsimple, u₁, hu₁, hu₁', hsound⟩ :=
+    transOK_frag Θ ec env scfg cfg hm p hf hwf hsq hmp he fuel p.cols st q st' tp (fun c hc => hc) h htp
+  obtain ⟨T, t1, t2, t3⟩ := root_of_sound hsound hsimple hu₁ hu₁' hwf.cols_ne_nil
+  exact ⟨T, t1, t2, t3.trans hself⟩
 
 end Sql
 end DAVerif
